@@ -174,6 +174,12 @@ def setup():
         pre, post = mk("TTFont." + meth)
         hooks.attach(ttFont.TTFont, meth, pre=pre, post=post, name="purity:TTFont." + meth)
     hooks.counters.setdefault("c16_pipe", 0)
+    # evidence: how many monitored compiles went through in-place offset-overflow resolution
+    from fontTools.ttLib.tables import otTables
+
+    for fn in ("fixLookupOverFlows", "fixSubTableOverFlows"):
+        if hasattr(otTables, fn):
+            hooks.attach(otTables, fn, name="overflow:" + fn, bind=False)
 
 
 # ------------------------------------------------------------------ cases
